@@ -14,7 +14,7 @@ import (
 func init() { register("C23", c23) }
 
 func c23(p *an.Prog, r *an.R, tier string) {
-	r.Explanation = "C23 (structural clauses): in indexData.Search and indexData.List every write of repository-derived data into the result (file matches, RepoURLs/LineFragments, repository list entries and map, per-repository statistics) is reached only on paths on which tenant.HasAccess(requestCtx, thatRepository.TenantID) returned true; HasAccess returns true unconditionally only when enforcement is off or the context is the system tenant; results obtained under systemtenant.WithUnsafeContext are not handed to a client. Does NOT decide that query rewriting respects tenancy, nor the wire layer."
+	r.Explanation = "C23 (structural clauses): in indexData.Search and indexData.List every write of repository-derived data into the result (file matches, RepoURLs/LineFragments, repository list entries and map, per-repository statistics) is reached only on paths on which tenant.HasAccess(requestCtx, thatRepository.TenantID) returned true; HasAccess returns true unconditionally only when enforcement is off or the context is the system tenant; results obtained under systemtenant.WithUnsafeContext are not handed to a client. Premise checked: every writer of indexData.repoListEntry adds exactly one entry per element of repoMetaData, in order. Does NOT decide that query rewriting respects tenancy, nor the wire layer."
 	r.Rule("C23.R2", "tenant.HasAccess, evaluated abstractly over all 16 combinations of (enforcement on, system-tenant context, tenant present in context, tenant id equals repository tenant id), equals: !enforcement || systemTenant || (tenantPresent && idEqual)")
 	r.Rule("C23.R2", "tenant.HasAccess returns constant true only under !enforceTenant() or systemtenant.Is(ctx); every other return is false or the tenant-id comparison")
 	r.Rule("C23.R3", "every non-test use of systemtenant.WithUnsafeContext is inventoried; the result of a search/list made under it is neither returned, passed on, nor are its tenant-data fields read (exceptions listed)")
